@@ -405,6 +405,7 @@ func registerModels(e *Engine) {
 	registerCompressModels(e)
 	registerStringModels(e)
 	registerTimerModels(e)
+	registerRuntimeTimerModels(e)
 	registerJSONModels(e)
 }
 
